@@ -76,6 +76,7 @@ def mutate(r: random.Random, pol: dict) -> dict:
     """a single-point change that the schema may or may not reject"""
     p = copy.deepcopy(pol)
     rules = p.get("rules")
+    kids: list = []
     if rules is None:
         kids = [c for c in p.get("policies") or [] if c.get("rules")]
         if not kids:
@@ -112,6 +113,10 @@ def mutate(r: random.Random, pol: dict) -> dict:
         rule["extra"] = 1
     elif k == 9 and "rules" in p:
         p["policies"] = []
+    elif k == 9 and kids:
+        # a child that is itself a set (the schema's SinglePolicy has additionalProperties: false)
+        gen.choice(r, kids)["policies"] = gen.choice(r, [[], [5], 5, "ab", [{"rules": [{"id": "n", "effect": 1, "actions": ["read"], "resource": {"type": "doc"}}]}],
+                                                         [{"rules": [{"id": "n", "effect": "permit", "actions": ["*"], "resource": {"type": "*"}}]}]])
     elif k == 10:
         rule["resource"]["type"] = gen.choice(r, ["", ["doc", ""], "*", ["*"]])
     elif k == 11:
